@@ -1,6 +1,15 @@
-"""C22 (sliver) WebAssembly integer runtime helpers: correspondence of Model.WasmRt with
-ppci/wasm/execution/runtime.py and evaluation of "helper = wasm spec operator" on the real
-functions (oracle: Spec.WasmInt on BitVec 32/64 through the driver)."""
+"""C22 WebAssembly execution follows the specification.
+
+Two parts:
+ 1. integer runtime helpers (ppci/wasm/execution/runtime.py): correspondence of Model.WasmRt and evaluation of
+    "helper = wasm operator" on the real functions (oracle Spec.WasmInt through the driver);
+ 2. whole modules: modules built with the real `ppci.wasm` components API are instantiated with
+    `ppci.wasm.instantiate(module, target='python'|'native')` in forked worker processes, their exports are invoked, and
+    results / traps / final memory / globals are compared with the reference interpreter Spec.Wasm (Lean, written from the
+    specification) through the driver.  Layers: operator matrix (every numeric opcode on boundary + random operands),
+    hand-written patterns (comparison;eqz/if/br_if/select, constants, locals, globals, loads/stores incl. out of bounds,
+    memory.grow, br_table, loops, unwinding, calls, call_indirect, start, segments, two instances), random typed programs.
+    Files: c22_gen.py (module descriptions, generators, serialisers), c22_exec.py (workers), c22_run.py (comparison)."""
 from harness import c22_gen as G_
 from harness import c22_exec as X_
 from harness import c22_run as R_
@@ -10,30 +19,49 @@ LEAN_PROPS = "PpciVerif/Props/C22.lean"
 LEAN_TARGETS = ["PpciVerif.Props.C22", "Drivers.C22"]
 LEVEL = "proof"
 LEVEL_TEXT = (
-    "PARTIAL. Lean theorems (suffix _partial) for ALL host integers: the integer helpers of ppci/wasm/execution/runtime.py - "
-    "i32/i64_rotl, rotr, clz, ctz, popcnt, i32_extend8_s/16_s, i64_extend8_s/16_s/32_s (hand model Model.WasmRt = the same composition "
-    "of the C39 bitfun model as in the source) - return the value of the WebAssembly specification's integer operator (irotl, irotr, "
-    "iclz, ictz, ipopcnt, iextendM_s; Spec.WasmInt on BitVec 32/64, Lean core's bit-vector library as reference) applied to the iN values "
-    "the arguments denote, read back signed (rotations, extensions) or as a count. NOT covered and not claimed: the wasm->IR "
-    "translation, control flow, calls, locals/globals/memory, floating point, truncations, traps, instantiation, and both execution "
-    "targets as a whole (the full statement is kept as `def execution_conforms_full`); no reference engine (wasmtime) exists in the sandbox.")
+    "PARTIAL. What the Lean theorems cover (for ALL inputs): (a) the integer helpers of ppci/wasm/execution/runtime.py - i32/i64_rotl, rotr, "
+    "clz, ctz, popcnt, i32_extend8_s/16_s, i64_extend8_s/16_s/32_s (hand model Model.WasmRt, the same composition of the C39 bitfun model as "
+    "in the source) - return the value of the WebAssembly specification's integer operator (Spec.WasmInt on BitVec 32/64) for every host "
+    "integer; (b) meta-properties of the reference interpreter Spec.Wasm (an executable reading of the core specification: i32/i64/f32/f64, "
+    "all numeric instructions with their traps, control, calls incl. call_indirect, locals, globals, memory, segments, start): the outcome of "
+    "a terminating execution does not depend on the fuel (interp_fuel_monotone, interp_outcome_unique, invoke_fuel_monotone); i32.eqz of an "
+    "integer comparison is the opposite comparison for every width; every float comparison with a NaN operand is 0 (ne: 1), hence eqz of an "
+    "ordered float comparison is NOT the negated comparison; division traps exactly for a zero divisor; shifts take their count modulo the "
+    "width. Theorems = helper operators + interpreter meta-properties, nothing more. Whole-module conformance of ppci's two execution targets "
+    "(wasm->IR translation, ir2py / native code generation, instantiation) is NOT proved: it is established only by a SAMPLED correspondence - "
+    "operator matrix, hand-written patterns and random typed programs built with the real ppci.wasm components API are executed by "
+    "ppci.wasm.instantiate(target='python'; 'native' in the thorough tier) and compared (results by bit pattern with any NaN = any NaN, traps, "
+    "final memory, globals) with Spec.Wasm. No reference engine (wasmtime) exists in the sandbox: Spec.Wasm is the reference. The full "
+    "statement is kept as `def execution_conforms_full` (unproved). Many genuine differences are open known findings (see findings/C22.json).")
 LEVEL_NOTE = (
-    "trusted: Lean kernel; axioms propext/Classical.choice/Quot.sound; Lean core BitVec.rotateLeft/rotateRight/clz/ctz/cpop/signExtend as "
-    "the reading of the wasm spec text (section 4.3.2); hand model <-> source correspondence is sampled (boundary and random i32/i64 values, "
-    "every rotation count), not proved. Only a sliver of the property is decided: everything that is not an integer runtime helper is outside.")
-TECHNIQUE = "Lean 4 proof (bridge from BitVec operators to bit-index definitions, reuse of the C39 theorems) over a hand model + differential correspondence with the Python functions"
+    "trusted: Lean kernel; axioms propext/Classical.choice/Quot.sound; Lean core BitVec operations and Lean's Float/Float32 (hardware IEEE "
+    "754, executed, never reasoned about) as the reading of the specification's numerics; Spec.Wasm itself (hand-written from the "
+    "specification text, validated only against ppci where both agree - about 99% of the sampled invocations - and by the kernel-checked "
+    "examples in Props/C22.lean); the generators of harness/c22_gen.py bound what is sampled. Random programs avoid, and are not compared "
+    "after entering, the regions of open known findings (f32 arithmetic not rounded / float division by zero / division overflow / missing "
+    "bounds and call_indirect checks on the python target; NaN comparisons and every trap on the native target): those regions are covered "
+    "precisely by the operator matrix and the patterns.")
+TECHNIQUE = ("Lean 4 proof (helper operators = spec operators; fuel monotonicity and operator laws of a reference interpreter written from the "
+             "specification) + differential correspondence of the real ppci execution targets with that interpreter through a line-protocol driver")
 RULE = (
-    "per helper: boundary values of the width (0, +-1, min, max, 2^k, 2^k+-1, -2^k, alternating patterns) and random values in signed and "
-    "unsigned representation; rotations: every count 0..N-1 for the boundary values, plus negative, >= N and random 32/64-bit counts; a few "
-    "arguments outside [-2^(N-1), 2^N) (compared, a difference there is only a note). distinct = distinct (helper,args); non-trivial = "
-    "value not in {0,-1} and, for rotations, count mod N != 0")
+    "helpers: per helper boundary values (0, +-1, min, max, 2^k, 2^k+-1, -2^k, patterns) and random values in signed and unsigned "
+    "representation; every rotation count for the boundary values. modules: every numeric opcode of the subset on a fixed boundary matrix "
+    "(0, +-1, INT_MIN/MAX, 2^k+-1, shift counts >= width; +-0.0, +-inf, NaN (quiet, negative, signalling, payload), subnormals, values at "
+    "and next to 2^31, 2^32, 2^63, 2^64, +-0.5, ties) plus seeded random operands; fixed patterns; seeded random programs (nested "
+    "block/loop/if/br_if/br_table, locals, globals, loads/stores of all widths, direct and indirect calls). distinct = distinct "
+    "(target, module, label, arguments) sampled 1-in-50 per module; evaluations = compared invocations + final memory/global comparisons")
 TRUSTED = [
     "hand model Model.WasmRt (composition of Model.Bitfun, see C39) of the integer helpers of ppci/wasm/execution/runtime.py, tied by differential run on every check",
-    "Spec.WasmInt: wasm integer operators as Lean core BitVec operations (reading of the WebAssembly core specification 4.3.2)",
+    "Spec.WasmInt / Spec.Wasm: the WebAssembly core specification as Lean definitions (BitVec for integers and for float bit patterns, Lean Float/Float32 for rounding arithmetic); it is the reference, no wasmtime in the sandbox",
+    "Spec.WasmParse + harness/c22_gen.py: the two serialisations of one module description (to ppci components and to the S-expression) are assumed to denote the same module",
+    "forked worker processes (harness/c22_exec.py): each python-target module gets a fresh irpy runtime (ppci shares one heap between all instances of a process)",
 ]
 ASSUMPTIONS = [
-    "host representation of an iN value is a Python int; the value it denotes is its residue mod 2^N (both the signed and the unsigned representative are accepted)",
-    "CPython int semantics as in C39",
+    "host representation of an iN value is a Python int; the value it denotes is its residue mod 2^N (signed and unsigned representative accepted); f32/f64 values are Python floats, compared by bit pattern, any NaN = any NaN",
+    "a trap is a raised WasmTrapException or runtime.Unreachable; any other exception, a wrong value, or a dead process is a difference",
+    "NaN sign/payload of computed NaNs is unspecified: once such bits become observable as integers (store, reinterpret) integer results and memory are compared tolerantly",
+    "memory.grow succeeds whenever the limit allows it (the specification also allows failure)",
+    "CPython int semantics as in C39; x86-64 Linux for the native target",
 ]
 
 ROT = ["rotl", "rotr"]
@@ -205,8 +233,9 @@ def run_tasks(ctx, tasks, targets, budget=240, workers=4):
             else:
                 plan.append((t, target, parsed))
     jobs = [X_.Job((t["id"], target), t["desc"], target, [(c[0], c[1]) for c in t["calls"]], t.get("stateless", False),
-                   40 if t["kind"] == "program" else budget)
+                   40 if t["kind"] == "program" else budget, after=t.get("after"), twice=t.get("twice", False))
             for t, target, _p in plan]
+    X_.warm(targets)
     X_.run_jobs(jobs, workers=workers)
     first = {}
 
